@@ -58,6 +58,18 @@ func (fr *Frame) call(ins *ssa.Call, c *ssa.CallCommon, reach *Term, st *State) 
 	if b, ok := c.Value.(*ssa.Builtin); ok {
 		return fr.builtin(ins, b, c, reach, st, pos)
 	}
+	// sync/atomic read-modify-write on a field or variable address: modelled exactly (one indivisible step)
+	if sc := c.StaticCallee(); sc != nil && sc.Pkg != nil && sc.Pkg.Pkg.Path() == "sync/atomic" && strings.HasPrefix(sc.Name(), "Add") && len(c.Args) == 2 {
+		if av := fr.val(c.Args[0], st); av.LV != nil {
+			fr.noteLV(av.LV)
+			cur := vc.load(st, av.LV)
+			nv := scalar(cur.Typ, IAdd(cur.T(), fr.val(c.Args[1], st).T()))
+			vc.store(st, av.LV, nv)
+			setRes(scalar(resT, nv.T()))
+			vc.usedTrusted["sync/atomic."+sc.Name()+" (modelled as one atomic step)"] = true
+			return reach
+		}
+	}
 	var args []Val
 	for _, a := range c.Args {
 		args = append(args, fr.reify(fr.val(a, st)))
@@ -547,13 +559,17 @@ func (fr *Frame) copyOp(ins *ssa.Call, c *ssa.CallCommon, reach *Term, st *State
 
 var modCache = map[*ssa.Function]*ModSet{}
 
+var modsInProgress = map[*ssa.Function]bool{}
+
 func (e *Engine) funcMods(f *ssa.Function, visiting map[*ssa.Function]bool) *ModSet {
 	if ms, ok := modCache[f]; ok {
 		return ms
 	}
-	if visiting[f] {
+	if visiting[f] || modsInProgress[f] {
 		return newModSet()
 	}
+	modsInProgress[f] = true
+	defer delete(modsInProgress, f)
 	visiting[f] = true
 	ms := newModSet()
 	for _, b := range f.Blocks {
@@ -750,6 +766,18 @@ func (e *Engine) addrPrefix(addr ssa.Value, fr *Frame) []string {
 func (e *Engine) instrMods(in ssa.Instruction, ms *ModSet, fr *Frame, visiting map[*ssa.Function]bool) {
 	switch in := in.(type) {
 	case *ssa.Store:
+		// element store into an array allocated by this very function (e.g. the argument array of a variadic call): a fresh object
+		if ia, ok := in.Addr.(*ssa.IndexAddr); ok {
+			if al, ok := ia.X.(*ssa.Alloc); ok {
+				if pt, ok := al.Type().Underlying().(*types.Pointer); ok {
+					if at, ok := pt.Elem().Underlying().(*types.Array); ok && fr == nil {
+						ms.Alloc = true
+						ms.Allocs["M."+typeKey(at.Elem())] = true
+						break
+					}
+				}
+			}
+		}
 		for _, p := range e.addrPrefix(in.Addr, fr) {
 			ms.Vars[p] = true
 		}
